@@ -3,6 +3,8 @@ C04 — Linked modules share state exactly as the specification says.
 Property theorems about the store model `Wz.Model.Store` (tied to /repo by correspondence, tie B).
 -/
 import Wz.Model.Store
+import Wz.Model.CallerSlot
+import Wz.Gen.CallerCtx
 
 namespace Wz.C04
 open Wz.Model.Store
@@ -764,5 +766,57 @@ def sampleBad : ModDesc :=
 example : (instantiate sampleA "B" sampleBad).2 = .dataErr ∧
     (instantiate sampleA "B" sampleBad).1.insts.length = 1 ∧
     ((instantiate sampleA "B" sampleBad).1.mems.map (fun m => (m.pages, m.read 10, m.read 65535))) = [(1, 7, 0)] := by decide
+
+
+/-! ### the compiler's caller-module slot (shared by all modules on one call stack) -/
+
+open Wz.Model.CallerSlot in
+/-- **The right instance is used.**  For every trace of stores / slot-reading exits of any modules, interleaved in
+any way, starting from any slot content: if every slot-reading exit is immediately preceded by the executing
+module's own store, every Go handler observes exactly the module that is executing. -/
+theorem caller_slot_discipline_suffices (es : List Ev) (slot : Nat) (h : Disciplined es) :
+    ∀ p ∈ run es slot, p.2 = p.1 := disciplined_sees_own es slot h
+
+open Wz.Model.CallerSlot in
+/-- The discipline is needed: module 1 stores, calls into module 2 (which stores its own context), and then
+exits to a handler without storing again - the handler acts on module 2 (the shape of a seeded change that
+elided "redundant" stores). -/
+theorem caller_slot_stale_witness :
+    run [.store 1, .exit 1, .other, .store 2, .exit 2, .other, .exit 1] 0 = [(1, 1), (2, 2), (1, 2)] ∧
+    ¬ Disciplined [.store 1, .exit 1, .other, .store 2, .exit 2, .other, .exit 1] := by decide
+
+/-- non-vacuity: a three-module trace that follows the discipline -/
+example : Wz.Model.CallerSlot.Disciplined [.store 1, .exit 1, .other, .store 2, .exit 2, .other, .store 1, .exit 1, .store 3, .other] := by decide
+
+/-- which lowering sites produce the exit handled under each exit code -/
+def sitesOfExit : List (String × List String) :=
+  [("ExitCodeCallGoFunctionWithListener", ["call:imported-function", "call:prepareCallIndirect"]),
+   ("ExitCodeCallGoModuleFunction", ["call:imported-function", "call:prepareCallIndirect"]),
+   ("ExitCodeCallGoModuleFunctionWithListener", ["call:imported-function", "call:prepareCallIndirect"]),
+   ("ExitCodeCallListenerBefore", ["call:callListenerBefore"]),
+   ("ExitCodeCallListenerAfter", ["call:callListenerAfter"]),
+   ("ExitCodeGrowMemory", ["trampoline:MemoryGrow"]),
+   ("ExitCodeTableGrow", ["trampoline:TableGrow"]),
+   ("ExitCodeRefFunc", ["trampoline:RefFunc"]),
+   ("ExitCodeMemoryWait32", ["trampoline:MemoryWait32"]),
+   ("ExitCodeMemoryWait64", ["trampoline:MemoryWait64"]),
+   ("ExitCodeMemoryNotify", ["trampoline:MemoryNotify"])]
+
+def siteStored (name : String) : Bool :=
+  let hits := Wz.Gen.CallerCtx.sites.filter (·.1 == name)
+  !hits.isEmpty && hits.all (·.2.2)
+
+/-- **Regenerated obligation** (handlers from `callWithStack`, sites from `frontend/lower.go`): every exit
+code whose Go handler reads the caller module is known here, and every lowering site that produces such an
+exit is preceded by an UNCONDITIONAL `storeCallerModuleContext()` - the discipline of the model. -/
+theorem caller_context_stored_before_every_go_exit :
+    (Wz.Gen.CallerCtx.handlers.filter (·.2)).all (fun h =>
+      match sitesOfExit.find? (·.1 == h.1) with
+      | some (_, ss) => ss.all siteStored
+      | none => false) = true := by decide
+
+/-- non-vacuity: the regenerated tables do list slot-reading handlers and storing sites -/
+example : (Wz.Gen.CallerCtx.handlers.filter (·.2)).length = 11 ∧ siteStored "trampoline:RefFunc" = true ∧
+    siteStored "trampoline:CheckModuleExitCode" = false := by decide
 
 end Wz.C04
